@@ -19,7 +19,7 @@ META = {
                       'snippet key: the solver does not return; measured). Stylesheet expand() is covered on concrete piece sequences',
                       'strings longer than the bound outside the piece language', 'the random text produced by lorem (stubbed)',
                       'mutation of long valid abbreviations', 'code points >= 128'],
-    'stubs': ['random.randint as used by markup/lorem returns its lower bound (lorem text is random by design)', 'C07-b: tokenization of the (per path concrete) abbreviation runs outside the tracer - same real function, identical tokens',
+    'stubs': ['random.randint as used by markup/lorem is a deterministic cycling counter (lorem text is random by design)', 'C07-b: tokenization of the (per path concrete) abbreviation runs outside the tracer - same real function, identical tokens',
               'Config objects are built outside the tracer; stylesheet snippet table converted once per path outside the tracer and '
               'passed through the documented cache option'],
 }
@@ -118,7 +118,14 @@ def mk_css_parse(L, lo, hi, value_mode):
 def mk_pieces(K, cfg, first):
     import importlib
     lorem_mod = importlib.import_module('emmet.markup.lorem')
-    lorem_mod.randint = lambda a, b: a        # lorem text is random by design; stubbed (the text is not part of any property)
+    _ctr = [0]
+
+    def _randint(a, b):
+        # lorem text is random by design; a deterministic cycling stub keeps the engine's replays deterministic (a constant
+        # would make lorem's own `sample()` loop forever)
+        _ctr[0] += 1
+        return a + _ctr[0] % (b - a + 1)
+    lorem_mod.randint = _randint
     from vf.pipe import expand_concrete_tokens
     pieces = C_PIECES if cfg.startswith('css') else M_PIECES
     P = len(pieces)
